@@ -9,7 +9,7 @@ EXPLANATION = ('Value-flow normal forms and the loop summary of HMC::step with H
                'H = -logp + 1/2 sum_dim1 p^2 at both ends; accept mask = [H(x,p0) - H(x_L,p_L) - ln U >= 0] (non-strict), U uniform of shape [n_chains]; '
                'positions := mask_where(x, expand(unsqueeze_dim(mask,1)), x_L) as the only store; no tensor op on the slice mixes rows. '
                'Numeric reversibility "up to rounding" and row-wise behaviour of user densities are not decided.')
-FLOORS = {'obligations': 12}   # counted on the reference tree; fewer instantiated obligations is reported, never passed silently
+FLOORS = {'obligations': 13}   # counted on the reference tree; fewer instantiated obligations is reported, never passed silently
 TECHNIQUE = 'value-flow normal form + loop summary (Verlet transfer function) vs specification table; op allow-list (row independence)'
 ULP = 'distributions::BatchedGradientTarget::unnorm_logp_batch'
 HALF = T.div(T.ONE, N(2))
@@ -122,5 +122,9 @@ def run(ctx):
         for x in T.subterms(ls.next[k]):
             if x[0] == 'app' and (x[1] in DENY or (x[1] == 'sum_dim' and x[2][1] is not N(1))):
                 bad.append(x[1])
+    ns = narrowing_sites(ctx, [b, ctx.helper('hmc.leapfrog')])
+    ctx.check('C02.no_narrowing', A, 'precision', not ns, expected='no conversion to a fixed narrower float type (elem::<f32>, to_f32, `as f32`) on the integrator / acceptance path',
+              found='; '.join('%s at %s' % (d, s_) for _, d, s_ in ns) or 'none', sp=sp,
+              why='on an f64 back end an f32-rounded step size or state makes the update differ from L leapfrog steps of the requested step size (and breaks reversibility to rounding accuracy)')
     ctx.check('C02.rowwise', A, 'rowwise', not bad, expected='only element-wise / dim-1 tensor operations between (x, p0) and the new positions', found=', '.join(sorted(set(bad))) or 'none', sp=sp,
               why='rows of the batch never influence one another')
